@@ -30,6 +30,8 @@ W_BASE = [("create_group", "x", None), ("create_group", "x/q", None), ("setitem"
           ("copy_shallow", "/a", "/b")]
 W_PQ = [("a", "b"), ("a/x", "b"), ("a", "a/x/c"), ("a/x", "a/y"), ("a", "b/c"), ("b", "a")]
 
+SERIAL_TRIAGE = True  # confirm() uses in-process substrate state (history search)
+
 
 def prechecks(tier):
     return [("vt.substrate.conformance", "precheck", {"n": 120 if tier == "quick" else 600})]
